@@ -857,7 +857,12 @@ func (bn *branchNode) getNextHashAndKey(key []byte) (bool, []byte, []byte) {
 		return false, nil, nil
 	}
 
-	wantHash := bn.EncodedChildren[key[0]]
+	childPos := int(key[0])
+	if childPos >= len(bn.EncodedChildren) {
+		return false, nil, nil
+	}
+
+	wantHash := bn.EncodedChildren[childPos]
 	nextKey := key[1:]
 
 	return false, wantHash, nextKey
